@@ -1,4 +1,5 @@
 import GoMailModel.Mime.Exec
+import GoMailModel.Proofs.Wire
 /-
   C06 — Recipients are exactly To+Cc+Bcc, and Bcc stays hidden.
 -/
@@ -41,6 +42,47 @@ theorem set_bcc_invisible (s : MsgState) (bcc : List Addr) (e : Entropy) :
 
 /-- non-vacuity -/
 example : getRecipients ({ aTo := some [⟨sb "<a@b>", sb "a@b"⟩], aBcc := some [⟨sb "<x@y>", sb "x@y"⟩] } : MsgState) = [sb "a@b", sb "x@y"] := by
+  decide
+
+open GoMail.Smtp in
+/-- **One RCPT per occurrence, on the wire.** The RCPT loop of Client.sendSingleMsg over any recipient
+    list (the harness hands it `GetRecipients`, which `recipients_are_to_cc_bcc` ties to To, Cc, Bcc):
+    if the connection is still live when the loop ends, the server has received - in addition to what it
+    had received before - exactly one `RCPT TO:<address>` line per entry of the list, in the order of the
+    list, every one with the NOTIFY parameter in force when the loop began; an address that occurs twice
+    gets two lines, whatever the server answered to the first. Addresses with control characters are
+    refused locally by smtp.Client.Rcpt (C05) and are excluded by hypothesis. -/
+theorem one_rcpt_per_occurrence (esc : Bool) (c : Conn) (rs : List Bytes) (se : SendErr) (bad : Bool)
+    (hend : live (rcptLoop esc c rs se bad).1)
+    (hok : ∀ r ∈ rs, containsCRLF (envelopeAddress r) = false) :
+    rcptsOf (rcptLoop esc c rs se bad).1.trace =
+      rcptsOf c.trace ++ rs.map (fun r => c.rcptLine (envelopeAddress r)) := by
+  have h := rcptLoop_wire esc c rs se bad hend
+  have hs : sendable rs = rs := by
+    unfold sendable
+    apply List.filter_eq_self.2
+    intro r hr
+    simp [hok r hr]
+  rw [hs] at h
+  exact h
+
+open GoMail.Smtp in
+/-- ... and in general (control characters allowed): one line per sendable entry, nothing else. -/
+theorem rcpt_lines_are_the_sendable_recipients (esc : Bool) (c : Conn) (rs : List Bytes) (se : SendErr) (bad : Bool)
+    (hend : live (rcptLoop esc c rs se bad).1) :
+    rcptsOf (rcptLoop esc c rs se bad).1.trace =
+      rcptsOf c.trace ++ (sendable rs).map (fun r => c.rcptLine (envelopeAddress r)) :=
+  rcptLoop_wire esc c rs se bad hend
+
+open GoMail.Smtp in
+/-- non-vacuity: bob is in To and in Bcc, the client asks for NOTIFY=SUCCESS, the server offers DSN, refuses
+    carol and accepts the rest: four lines, bob twice, the connection live at the end -/
+example :
+    let c : Conn := { script := [.ok, .reply 550 (sb "no"), .ok, .ok], ext := some [(sb "DSN", [])], dsnrntype := sb "SUCCESS" }
+    let out := rcptLoop false c [sb "bob@x.y", sb "carol@x.y", sb "dave@x.y", sb "bob@x.y"] { reason := .getSender } false
+    rcptsOf out.1.trace = [sb "RCPT TO:<bob@x.y> NOTIFY=SUCCESS", sb "RCPT TO:<carol@x.y> NOTIFY=SUCCESS",
+      sb "RCPT TO:<dave@x.y> NOTIFY=SUCCESS", sb "RCPT TO:<bob@x.y> NOTIFY=SUCCESS"] ∧
+    out.1.cliOpen = true ∧ out.1.srvGone = false ∧ out.1.srvSilent = false ∧ out.2.2 = true := by
   decide
 
 end GoMail.Props.C06
